@@ -73,7 +73,7 @@ type Cluster struct {
 // below 15,000) and the network holds a few dozen messages; a modified tree may loop, flood
 // the network or grow its queues without bound, and the check must still terminate.
 const (
-	maxCalls    = 40000
+	maxCalls    = 80000
 	maxNet      = 4000
 	maxTraceLen = 96 << 20
 )
@@ -152,7 +152,7 @@ func (n *Node) startApp() {
 func (c *Cluster) alive() []*Node {
 	var r []*Node
 	for _, id := range c.ids {
-		if c.nodes[id].alive {
+		if c.nodes[id].alive && c.nodes[id].rn != nil {
 			r = append(r, c.nodes[id])
 		}
 	}
